@@ -10,7 +10,7 @@ use serde_json::{json, Value};
 pub struct P;
 pub static C18: P = P;
 
-pub const WAYS: [&str; 20] = [
+pub const WAYS: [&str; 21] = [
     "class + user sheet .h{display:none}",
     "style=\"display:none\" (document CSS enabled)",
     "style=\"height:0;overflow:hidden\"",
@@ -31,6 +31,7 @@ pub const WAYS: [&str; 20] = [
     "NOT hidden: style=\"height:0\" alone (half of the zero-height idiom)",
     "style=\"max-height:0;height:40px;overflow:hidden\" (a later non-zero length of the *other* height property)",
     "style=\"height:0;max-height:200px;overflow-y:hidden\"",
+    "class list separated by tab / newline (class=\"zz<TAB>h<LF>yy\") + user sheet .h{display:none}",
 ];
 
 #[derive(Serialize, Deserialize)]
@@ -69,6 +70,7 @@ fn mark(d: &[N], p: &[usize], way: usize) -> String {
             1 => attrs.push(("style".into(), "display:none".into())),
             2 => attrs.push(("style".into(), "height:0;overflow:hidden".into())),
             3 => attrs.push(("id".into(), "hh".into())),
+            20 => attrs.push(("class".into(), "zz\th\nyy".into())),
             18 => attrs.push(("style".into(), "max-height:0;height:40px;overflow:hidden".into())),
             19 => attrs.push(("style".into(), "height:0;max-height:200px;overflow-y:hidden".into())),
             _ => attrs.push(("style".into(), "max-height:0px; overflow-y:hidden".into())),
@@ -108,7 +110,7 @@ fn cfg_for(way: usize, rich: bool, tag: &str) -> Cfg {
     let base = if rich { Cfg::rich() } else { Cfg::plain() };
     let base = base.with(Opt::DocCss);
     match way {
-        0 => base.with(Opt::UserCss(".h{display:none}".into())),
+        0 | 20 => base.with(Opt::UserCss(".h{display:none}".into())),
         3 => base.with(Opt::UserCss("#hh{display:none;}".into())),
         5 => base.with(Opt::UserCss("body .h { display: none }".into())),
         6 => base.with(Opt::AgentCss(".h{display:none}".into())),
@@ -238,7 +240,7 @@ impl Prop for P {
     fn build(&self, tier: Tier) -> Box<dyn Scope> {
         let docs = block_docs(tier.pick(2, 3), G { tables: true, pre: true, valid_only: true });
         let docs: Vec<Vec<N>> = if tier == Tier::Thorough { docs.into_iter().step_by(2).collect() } else { docs };
-        Box::new(S { docs, widths: tier.pick(vec![1, 2, 3, 4, 5, 6, 8, 10, 14, 20], (1..=24).chain([30, 40, 60, 100]).collect()), ways: tier.pick(vec![0, 1, 2, 3, 4, 8, 9, 11, 12, 13, 14, 15, 16, 17, 18, 19], (0..20).collect()) })
+        Box::new(S { docs, widths: tier.pick(vec![1, 2, 3, 4, 5, 6, 8, 10, 14, 20], (1..=24).chain([30, 40, 60, 100]).collect()), ways: tier.pick(vec![0, 1, 2, 3, 4, 8, 9, 11, 12, 13, 14, 15, 16, 17, 18, 19, 20], (0..21).collect()) })
     }
     fn replay(&self, case: &Value, cx: &mut Cx) {
         let c: Case = serde_json::from_value(case.clone()).expect("C18 case");
